@@ -66,7 +66,11 @@ def stale_cases(seed, n):
 
 
 def run(ctx, res):
-    pipeprop.run(ctx, res, "C09", PROFILE, n_quick=400, n_thorough=6000, probe_ids=())
+    import scenarios
+    fam = [] if ctx.replay else (scenarios.pick(scenarios.family_joins(), 300 if ctx.tier == "quick" else 10 ** 6, ctx.seed + 1)
+                                 + scenarios.pick(scenarios.family_a(), 150 if ctx.tier == "quick" else 10 ** 6, ctx.seed))
+    pipeprop.run(ctx, res, "C09", PROFILE, n_quick=300, n_thorough=6000, probe_ids=(), extra_cases=fam)
+    res.coverage["scenario_grid"] = {"family": "joins + A (references to hidden / overwritten / suffixed columns)", "cases": len(fam)}
     if ctx.replay:
         return
     n = 80 if ctx.tier == "quick" else 800
